@@ -26,7 +26,7 @@ import (
 
 type scriptT struct {
 	name, params, body string
-	exprs                []string
+	exprs              []string
 }
 
 var handlerScripts = []scriptT{
